@@ -34,13 +34,11 @@ RE_RANGE_OP = re.compile(r"\.\.")
 RE_RULE_DOC = re.compile(r"///")
 RE_TAG = re.compile(r"#[_a-zA-Z][_a-zA-Z0-9]*")
 RE_WHITESPACE = re.compile(r"[ \t\n\r]+")
-RE_CHAR = re.compile(
-    r"'\\[\\\"\r\n\t\0']'|'\\x[0-9a-fA-F]{2}'|'\\u\{[0-9a-fA-F]{2,6}\}'|'.'"
-)
 RE_LINE_COMMENT = re.compile(r"//(?!/|!).*")
 RE_BLOCK_COMMENT = re.compile(r"/\*(?:[^*/]|\*(?!/)|/(?!\*)|(?R))*\*/")
 
 RE_ESCAPE = re.compile(r"[\\\"rnt0']|x[0-9a-fA-F]{2}|u\{[0-9a-fA-F]{2,6}\}")
+RE_CHAR = re.compile(rf"'(?:\\(?:{RE_ESCAPE.pattern})|[^\\])'")
 
 
 def tokenize(grammar: str) -> list[Token]:
